@@ -110,7 +110,8 @@ pub fn render(pins: &[Pin], tests: &[TestDesc]) -> String {
         match p.default {
             Default::None => {}
             Default::Value(v) => es.push(entry("InDefault", &format!("<value v=\"{v}\" z=\"false\"/>"))),
-            Default::Z => es.push(entry("InDefault", "<value v=\"0\" z=\"true\"/>")),
+            // every other high-Z default is written without the v attribute, with an empty or an unparsable one
+            Default::Z => es.push(entry("InDefault", match p.label.as_deref().map(|l| l.len() % 4) { Some(1) => "<value v=\"0\" z=\"true\"/>", Some(2) => "<value z=\"true\"/>", Some(3) => "<value v=\"\" z=\"true\"/>", _ => "<value v=\"99999999999999999999\" z=\"true\"/>" })),
         }
         if p.kind == PinKind::Clock {
             es.push(entry("Frequency", "<int>2</int>"));
